@@ -325,6 +325,27 @@ func checkPoss(scen string, in PossIn) []*mc.Violation {
 	if after := gen.CanonDep(d); after != before {
 		out = append(out, mc.V(scen, "first-admitted-alternative", in, "the parsed field is unchanged by selections: "+before, after))
 	}
+	if len(out) > 0 {
+		return out
+	}
+	// the field is the caller's: after an edit of the exported structure the selection answers for the edited field -
+	// a relation appended, then every earlier relation removed
+	if p, msg := mc.Guard(func() {
+		d.Relations = append(d.Relations, dependency.Relation{Possibilities: []dependency.Possibility{{Name: "appended-later", Architectures: &dependency.ArchSet{Architectures: []dependency.Arch{}}, StageSets: []dependency.StageSet{}}}})
+		want2 := strings.TrimSpace(strings.Join(wantSel, " ") + " appended-later")
+		if ps := d.GetPossibilities(*arch); names(ps) != want2 {
+			out = append(out, mc.V(scen, "first-admitted-alternative", in, want2, "after a relation was appended to the parsed field: "+names(ps)))
+		}
+		d.Relations = d.Relations[len(d.Relations)-1:]
+		if ps := d.GetPossibilities(*arch); names(ps) != "appended-later" {
+			out = append(out, mc.V(scen, "first-admitted-alternative", in, "appended-later", "after the earlier relations were removed: "+names(ps)))
+		}
+		if ps := d.GetAllPossibilities(); names(ps) != "appended-later" {
+			out = append(out, mc.V(scen, "all-non-substvars", in, "appended-later", "after the earlier relations were removed: "+names(ps)))
+		}
+	}); p {
+		out = append(out, mc.V(scen, "selection-returns", in, "no panic", msg))
+	}
 	return out
 }
 
